@@ -3,6 +3,12 @@
 import json, subprocess
 
 CHECKS = {
+ "C15": ("exploration", "generated romaniser / deromaniser tables over fresh strings; model rewrite of the default rendering + encode/decode equivalence",
+         "Romaniser tables (plain IPA, groups, matrices, `$`; replacement, `+` suffix, `*`) are applied to the result of generated sound changes and compared with the harness's own rewrite of the default rendering of the structural result, while the alias-free run must equal the default rendering; deromaniser tables map fresh strings to segments (plain, long, stressed, sequences) and the encoded word must parse to the same structural word and give the same run result.",
+         "Trusted: the 30-line model of the documented romanisation on the sub-domain where it is unambiguous (no length/stress/tone parameters in romaniser inputs, plain-pool words), the structural hook. Fresh strings are Cyrillic capitals / CJK, which no lexer or IPA table uses.", "DESIGN.md §5 C15"),
+ "C17": ("fault_enumeration", "fault catalogue × every (group, line) position of valid backgrounds; formatter output parsed and checked; plus random Err formatting",
+         "Every fault of a catalogue (52 syntax faults, 35 runtime faults, 3 position-less ones, 31 alias faults, 12 bad words; ~80 distinct error variants reached) is planted at every position of valid rule-group lists / alias lists / word lists; run must return Err, the matching formatter must not panic, must echo the planted line and name its position, and every caret must lie within the line. Random rule lists, mutations and noise add arbitrary Err values whose formatted position must exist.",
+         "Trusted: the catalogue (entries that do not fail are reported, not judged) and the parser of the formatter's plain-text layout (NO_COLOR). DeletionOnlySeg/DeletionOnlySyll carry no position: listed known findings.", "DESIGN.md §5 C17"),
  "C13": ("exploration", "exhaustive synonym × position table + generated rules/words under every documented respelling; differential oracle",
          "Every advertised spelling of every feature, node and suprasegmental name is tried in every syntactic position that takes a matrix (12 in rules, 5 in alias lines) against the first spelling of its group; generated rules are printed in the canonical style and in each alternative style (arrows, `//`, `∅`, ellipsis forms, angle brackets, matrix spaces, trailing comment, Latin alphas, renumbered variables) and generated words are respelled with every documented input alternative; both spellings must give equal outputs or the same error variant.",
          "Trusted: the transcribed synonym table (the advertised list) and the printer. The doubled-segment respelling is not applied to words containing click-initial graphemes (a copy would be read together with the neighbouring stop as one click segment, which is a different word by the manual).", "DESIGN.md §5 C13"),
